@@ -1,2 +1,23 @@
-// Package c02 decides C02 (see DESIGN.md section 4). Not built yet.
+// Package c02 decides C02 (suspending and resuming a goroutine is invisible):
+// the same MiniGo programs are compiled with trace points that may suspend the
+// goroutine (runtime.Gosched: a full suspend through $recv/$block and resume
+// through $schedule), so every function is emitted in its resumable form; for
+// every yield mask the program must print exactly what spec/MiniGo.tla predicts
+// (in which a yield is a stuttering step) -- and what the plain build prints.
 package c02
+
+import (
+	"verif/core"
+	"verif/gjs"
+	"verif/props/minigo"
+	"verif/reg"
+)
+
+func init() { reg.Register("C02", "model_checking", Run) }
+
+// Run is the C02 check.
+func Run(c *core.Ctx, pool *gjs.Pool) {
+	c.Assumef("suspension points are the trace points of the programs (call sites inside expressions, conditions, case expressions, post statements, arguments); no other goroutine is runnable in between")
+	minigo.Check(c, pool, minigo.Config{Prop: "C02", Families: true, Random: c.Pick(250, 5000),
+		Modes: []minigo.Mode{{Name: "resumable", Flat: true, Masks: c.Pick(8, 48)}}})
+}
